@@ -103,7 +103,7 @@ def fallback(rng):
 def modes_carry_the_fit(rng):
     """ModeStatistics built from particles stores exactly what fit_mvstud returns for those particles: location, scale matrix
     (entry-wise, also for coordinates whose scales differ by many orders of magnitude) and the (fallback) dof."""
-    for d, spread in ((2, (1.0, 1e-5)), (3, (1e3, 1.0, 1e-3)), (2, (1.0, 1.0))):
+    for d, spread in ((2, (1.0, 1e-5)), (3, (1e3, 1.0, 1e-3)), (2, (1.0, 1.0)), (2, (0.2, 1e-9)), (3, (1e6, 1.0, 1e-6)), (4, (1e-6, 1e6, 1e-2, 1e3))):
         X = rng.standard_normal((80, d)) * np.asarray(spread) + 0.5
         w = np.full(len(X), 1.0 / len(X))
         st = np.random.get_state()
@@ -124,9 +124,35 @@ def modes_carry_the_fit(rng):
                     f"{var.tolist()} (ratio {ratio.tolist()}): the stored scale is not the fitted one in every coordinate")
         if not np.allclose(ms.chol_covariances[0] @ ms.chol_covariances[0].T, S, rtol=1e-6, atol=0) and d <= 3:
             return "chol_covariances does not factor the stored scale matrix"
-        I_ = ms.inv_covariances[0] @ S
-        if not np.allclose(I_, np.eye(d), atol=1e-6):
-            return f"inv_covariances is not the inverse of the stored scale matrix (per-coordinate scales {spread})"
+        # in width units (coordinates divided by their own fitted width) the precision matrix is the inverse of the correlation-like
+        # matrix and is positive definite - whatever the ratio of the widths
+        P = np.asarray(ms.inv_covariances[0]) * np.outer(sd, sd)
+        if not np.allclose(P @ C, np.eye(d), atol=1e-6) or np.linalg.eigvalsh((P + P.T) / 2).min() <= 0:
+            return (f"inv_covariances is not the (positive-definite) inverse of the stored scale matrix for per-coordinate scales {spread}: in width units "
+                    f"P C deviates from the identity by {np.abs(P @ C - np.eye(d)).max():.3g}, smallest eigenvalue of P {np.linalg.eigvalsh((P + P.T) / 2).min():.3g}")
+    return None
+
+
+def integer_data(rng):
+    """whole-number data handed over with an integer dtype: the fit equals the fit of the same numbers stored as float64 (location with
+    a fractional median included), and stays equivariant under a non-integer rescaling / an integer translation"""
+    for d, n in ((1, 8), (2, 40), (3, 60), (5, 100)):
+        Xi = np.round(rng.standard_normal((n, d)) * 4 - 2).astype(np.int64)
+        for name, Xs in (("int64", Xi), ("int32", Xi.astype(np.int32))):
+            try:
+                mi, Si, ni = fit_mvstud(Xs)
+                mf, Sf, nf = fit_mvstud(Xi.astype(float))
+                mh, Sh, nh = fit_mvstud(0.5 * Xi)
+                mt, St, nt = fit_mvstud(Xs + 10)
+            except Exception as e:
+                return f"fit_mvstud on {name} data raised {type(e).__name__}: {e}"
+            if not (np.allclose(np.asarray(mi, float), mf, rtol=1e-9, atol=1e-9) and np.allclose(Si, Sf, rtol=1e-7, atol=1e-9)):
+                return (f"fit_mvstud on whole-number data stored as {name} (n={n}, d={d}): location {np.asarray(mi).tolist()} / scale differ from the fit of the "
+                        f"same numbers stored as float64 ({np.asarray(mf).tolist()})")
+            if not np.allclose(0.5 * np.asarray(mi, float), mh, rtol=1e-9, atol=1e-9):
+                return f"fit_mvstud on {name} data is not scale-equivariant: 0.5 * fit(x).mu = {(0.5 * np.asarray(mi, float)).tolist()} vs fit(0.5 x).mu = {np.asarray(mh).tolist()}"
+            if not np.allclose(np.asarray(mi, float) + 10, np.asarray(mt, float), rtol=1e-9, atol=1e-9):
+                return f"fit_mvstud on {name} data is not translation-equivariant: fit(x).mu + 10 = {(np.asarray(mi, float) + 10).tolist()} vs fit(x + 10).mu = {np.asarray(mt).tolist()}"
     return None
 
 
@@ -175,7 +201,8 @@ def main():
     rng = np.random.RandomState(int(p.get("seed", 0)))
     np.random.seed(1)
     tried = 0
-    for nm, fn in (("modes carry the fit", lambda: modes_carry_the_fit(rng)), ("trainer uses current particles", trainer_uses_current_particles)):
+    for nm, fn in (("modes carry the fit", lambda: modes_carry_the_fit(rng)), ("trainer uses current particles", trainer_uses_current_particles),
+                   ("integer-typed data", lambda: integer_data(np.random.RandomState(19)))):
         tried += 1
         try:
             e = fn()
